@@ -50,7 +50,7 @@ def main():
             "enable": "set automatically by the Kani compiler: every check builds /repo/cglue through `cargo kani` from the "
                       "harness crates' path dependency; ordinary cargo build/test never sets it",
             "baseline_off_cmd": "cd /repo && cargo test --workspace --no-fail-fast --offline",
-            "source_commits": ["a9fe5e559b30713cbcd5fec03948db018df55fcf"],
+            "source_commits": ["a9fe5e559b30713cbcd5fec03948db018df55fcf", "06f240426e81edd27258a1303fb5a965d40f0441"],
             "add_only": True,
         },
         "engines": [
